@@ -115,6 +115,15 @@ def engines(ids):
     return out
 
 
+def thorough_ok():
+    """ids whose thorough tier ran to completion with exit 0 on the final tree (tools/thorough_ok.txt, one id per line with
+    the measured wall time); every other check is registered with its quick tier only"""
+    f = os.path.join(HERE, "tools", "thorough_ok.txt")
+    if not os.path.exists(f):
+        return None
+    return {l.split()[0] for l in open(f) if l.strip() and not l.startswith("#")}
+
+
 def main():
     props = [json.loads(l) for l in open(os.path.join(HERE, "properties.jsonl"))]
     ids = [p["id"] for p in props]
@@ -133,7 +142,8 @@ def main():
             "level_note": c["note"],
             "technique": c["technique"],
         }
-        if c["thorough"]:
+        tok = thorough_ok()
+        if c["thorough"] and (tok is None or pid in tok):
             e["thorough_cmd"] = f"./check {pid} --tier thorough"
         checks.append(e)
     na = [{"property_id": pid, "reason": PENDING.get(pid, "check not built yet in this round (planned design: DESIGN.md §4); nothing is claimed for it")}
